@@ -473,7 +473,10 @@ static int tap_main(int argc, char* const* argv)
         }
         instance.tx = MakeTransactionRef(mtx);
 
-        instance.configure_tx_txin();
+        if (!instance.configure_tx_txin()) {
+            // e.g. the spent output ends in our key but is not a taproot output (OP_0 <key>): there is no BIP341 digest for it
+            abort("the input transaction's output cannot be spent as a taproot output (see above)");
+        }
         instance.execdata.m_codeseparator_pos = 0xFFFFFFFFUL;
         instance.execdata.m_codeseparator_pos_init = true;
 
